@@ -55,6 +55,18 @@ def run(ctx):
                 fh.write(json.dumps(b) + "\n")
         recs = ctx.go_replay("quorumcert", "TestImport", inp2, shards=4, timeout=1500)
         ctx.absorb(recs)
+    if not ctx.replay:
+        # 5. the fast-sync path of the statement ("whether received from consensus, fast sync or import"): block results
+        #    with commit vote lists of the other validators are handed to a REAL consensus engine (harness/csnode,
+        #    operation "block" of the CsEnv/CsScript schedules and the directed schedule fastsync-too-few-precommits);
+        #    the recorded trace is validated by TLC against CsContract: a Finalize needs +2/3 precommits for that block
+        from props import cscommon
+        sched = [d for d in cscommon.directed(ctx) if any(st.get("op") == "block" for st in d["steps"])]
+        walks = [b for b in cscommon.env_behaviours(ctx, ctx.pick(40, 200), max_crash=1, max_ops=14, seed_off=500)
+                 if any(st.get("op") == "block" for st in b["steps"])]
+        frecs = cscommon.run_nodes(ctx, sched + walks[:ctx.pick(12, 80)], {"finalize-without-quorum", "finalized-twice"},
+                                   shards=ctx.pick(6, 12))
+        ctx.absorb(frecs)
     return ctx.finish(
         rule="a case = one commit vote list: the valid precommit signatures of a subset of n validators (n=1..7, every subset) "
              "with anomalous items inserted (duplicate signer, non-validator, signature over another block/round/part-set/"
